@@ -45,7 +45,7 @@ RULE = {
               'ea x every eb with ea+eb-127 in -3..5 or 250..258 (product at either end of the normal range); plus '
               'close-magnitude pairs: 16 exponents x all 11 patterns m x partners m+{-2..2} x exponent e-1,e,e+1 x 4 '
               'sign pairs. InttoFP_SP: +-(2^k +- d) for k<=31, d in {0..3} and around 2^(k-25)..2^(k-21), plus all '
-              '65536 values hi16<<16 and all 65536 values lo16. FPtoInt_SP: every sign x exponent field 0..255 x 75 '
+              '65536 values hi16<<16 and all 65536 values lo16. FPtoInt_SP: every sign x exponent field 0..255 x 70 '
               'mantissa patterns (fields 0 and 255 skipped: not finite normal). A case is non-trivial when it is in '
               'the statement\'s domain and its exact expected output is not all-zero (add/mul: exact result non-zero '
               'and normal)'),
@@ -63,7 +63,8 @@ ASSUMPTIONS = [
     'a defect that needs a mantissa pattern outside the alphabet is not seen',
     'only finite normal operands (exponent field 1..254) are in the domain; add/mul result clauses (error bound, sign, '
     'commutativity) are checked only when the exact real result is non-zero and in [2^-126, 2^128); everything else is '
-    'counted in skipped_precondition',
+    'counted in skipped_precondition and not simulated (multiplier slices whose every product over/underflows report '
+    '0 evaluations and are marked vacuous_ok)',
     'adder bound: |r - exact| < 2 ulp of the larger-magnitude operand and sign bit of r == sign of the exact sum; '
     'multiplier bound: |r - exact| < 1 ulp of the binade of the exact product; an infinity/NaN output counts as an '
     'error-bound violation',
@@ -76,7 +77,7 @@ ASSUMPTIONS = [
 ]
 BOUNDS = {
     'quick': 'binary blocks: 7 exponents x gaps -40..40 x 4 signs x 6^2 mantissas + close pairs on 16 exponents; '
-             'InttoFP_SP 131072 + ~1400 integers; FPtoInt_SP 2 x 256 x 75 encodings',
+             'InttoFP_SP 131071 + 648 integers; FPtoInt_SP 2 x 256 x 70 encodings',
     'thorough': 'binary blocks: 254^2 exponent pairs x 4 signs x |M|^2 (adder |M|=8, others |M|=11) + close pairs on '
                 'all 254 exponents; conversions as quick',
 }
@@ -321,32 +322,35 @@ def run_binary(d):
     absolute = blk.endswith('_abs')
 
     def one(x, y):
-        """evaluate (x, y); returns (outputs, in_domain)"""
+        """evaluate (x, y) unless it is outside the statement's domain; returns the outputs or None"""
         nonlocal evals, nontriv, skipped
-        got = ev(x, y)
-        evals += 1
-        outcomes.add(got)
         if is_add or is_mul:
+            exact = fp.add_exact(x, y) if is_add else fp.mul_exact(x, y)
+            if exact is None:
+                skipped += 1            # operand not normal, exact result zero or not normal: nothing is claimed
+                return None
+            got = ev(x, y)
+            evals += 1
+            outcomes.add(got)
+            nontriv += 1                # exact result is non-zero by construction of the domain
             r = got[0]
-            bad = fp.add_check(x, y, r) if is_add else fp.mul_check(x, y, r)
-            if bad is None:
-                skipped += 1
-                return got, False
-            nontriv += 1
+            bad = fp.add_check(x, y, r, exact) if is_add else fp.mul_check(x, y, r, exact)
             if len(samples) < 2:
                 samples.append({'block': blk, 'a': '0x%08x' % x, 'b': '0x%08x' % y, 'r': '0x%08x' % r,
-                                'exact': repr(float(fp.add_exact(x, y) if is_add else fp.mul_exact(x, y)))})
+                                'exact': repr(float(exact))})
             for c in bad:
-                exact = fp.add_exact(x, y) if is_add else fp.mul_exact(x, y)
                 sig = 'C13:%s:%s' % (blk, c)
                 if is_add:
                     sig += ':' + gapclass(x, y)
                 col.add(sig, [[x, y]], _arith_detail(blk, x, y, r, exact))
-            return got, True
+            return got
         exp = fp.cmp_expected(x, y, absolute)
         if exp is None:
             skipped += 1
-            return got, False
+            return None
+        got = ev(x, y)
+        evals += 1
+        outcomes.add(got)
         nontriv += 1 if any(exp) else 0
         if len(samples) < 2:
             samples.append({'block': blk, 'a': '0x%08x' % x, 'b': '0x%08x' % y, 'gt_eq_lt': list(got)})
@@ -355,13 +359,13 @@ def run_binary(d):
             col.add('C13:%s:order:%s' % (blk, wrong[0]), [[x, y]],
                     {'block': blk, 'a': _opd(x), 'b': _opd(y), 'got_gt_eq_lt': list(got), 'expected_gt_eq_lt': list(exp),
                      'same_sign': (x >> 31) == (y >> 31)})
-        return got, True
+        return got
 
     for x, y in binary_pairs(d):
-        g1, dom = one(x, y)
+        g1 = one(x, y)
         if x != y:
-            g2, _ = one(y, x)
-            if (is_add or is_mul) and dom and g1 != g2:
+            g2 = one(y, x)
+            if (is_add or is_mul) and g1 is not None and g2 is not None and g1 != g2:
                 exact = fp.add_exact(x, y) if is_add else fp.mul_exact(x, y)
                 sig = 'C13:%s:commutativity' % blk
                 if is_add:
@@ -369,6 +373,10 @@ def run_binary(d):
                 dd = _arith_detail(blk, x, y, g1[0], exact)
                 dd['r_swapped'] = _opd(g2[0])
                 col.add(sig, [[x, y], [y, x]], dd)
+    if evals == 0:
+        # every operand pair of this slice has an exact result outside the normal range (multiplier over/underflow)
+        return {'evaluations': 0, 'distinct_nontrivial': 0, 'skipped_precondition': skipped, 'distinct_outcomes': 0,
+                'vacuous_ok': True, 'samples': [], 'violations': []}
     return {'evaluations': evals, 'distinct_nontrivial': nontriv, 'skipped_precondition': skipped,
             'distinct_outcomes': len(outcomes), 'samples': samples, 'violations': col.finish()}
 
@@ -385,10 +393,11 @@ def int_alphabet(d):
                 for v in ((1 << k) + dd, (1 << k) - dd, -(1 << k) - dd, -(1 << k) + dd):
                     if -(1 << 31) <= v < (1 << 31):
                         vals.add(v & 0xFFFFFFFF)
-        return sorted(vals)
+        # values that the lo16 / hi16 parts enumerate anyway are left to them (no case is counted twice)
+        return sorted(v for v in vals if v >= 0x10000 and v & 0xFFFF)
     lo = d['chunk'] * 8192
     if d['part'] == 'hi16':
-        return [h << 16 for h in range(lo, lo + 8192)]
+        return [h << 16 for h in range(max(lo, 1), lo + 8192)]     # 0 belongs to lo16
     return list(range(lo, lo + 8192))
 
 
